@@ -12,7 +12,7 @@
 EXTENDS Integers, Sequences, FiniteSets, TLC
 
 CONSTANTS NIters,      \* set of n_iter values
-          BurnSpecs,   \* set of <<"count", c>> | <<"frac", tenths>>
+          BurnSpecs,   \* set of <<"count", c>> | <<"frac", tenths>> | <<"frac8", eighths>>
           Powers,      \* set of rationals <<num, den>> for burn_in_step_power
           Anneals,     \* set of <<"off">> | <<"on", <<"count"|"frac", x>>, P, T0>>  (T0 rational)
           LogCfgs,     \* set of [on, print, save, plot, patients, path, dir, overwrite]; periodicity 0 = none;
@@ -47,7 +47,10 @@ One == <<1, 1>>
 Half == <<1, 2>>
 
 \* ---- resolution of the configuration (constructor + _initialize_annealing + OutputsSettings) ----
-Resolve(spec, n) == IF spec[1] = "count" THEN spec[2] ELSE (spec[2] * n) \div 10      \* int(frac * n_iter)
+\* <<"frac", f>>: f tenths;  <<"frac8", f>>: f eighths (fractions that are not whole percents, exact in binary)
+Resolve(spec, n) == IF spec[1] = "count" THEN spec[2]
+                    ELSE IF spec[1] = "frac8" THEN (spec[2] * n) \div 8
+                    ELSE (spec[2] * n) \div 10      \* int(frac * n_iter)
 NBurn(c) == Resolve(c.burn, c.n)
 AnnOn(c) == c.ann[1] = "on"
 NAnn(c) == Resolve(c.ann[2], c.n)
@@ -151,7 +154,8 @@ Temp == TempAt(cfg, j)
 \* C05
 PhaseRule == (phase = "maximized") => ((mem = <<"memoryless">>) <=> (k <= NBurn(cfg) + 1))
 StepIndexRule == (phase = "maximized" /\ mem[1] = "avg") => (mem[2] = k - NBurn(cfg) /\ mem[2] >= 2)
-BurnInLength == NBurn(cfg) = (IF cfg.burn[1] = "count" THEN cfg.burn[2] ELSE (cfg.burn[2] * cfg.n) \div 10)
+BurnInLength == NBurn(cfg) = (IF cfg.burn[1] = "count" THEN cfg.burn[2]
+                               ELSE IF cfg.burn[1] = "frac8" THEN (cfg.burn[2] * cfg.n) \div 8 ELSE (cfg.burn[2] * cfg.n) \div 10)
 PowerRefusedInv == (st \in {"run", "done"}) => (Lt(Half, cfg.pw) /\ Le(cfg.pw, One))
 \* C04
 BatchUpdate == (phase = "maximized") => \A p \in Params : \A q \in Params : reads[p][q] = ver[q] - 1
